@@ -74,13 +74,29 @@ static void Cell_Dealloc(var self) {
 }
 var Cell = Cello(Cell, Instance(Alloc, Cell_Alloc, Cell_Dealloc));
 
+/* object graphs with cycles (a doubly linked ring of plain nodes, two Refs naming each other) kept alive across collections */
+struct RNode { var next; var prev; int64_t v; };
+var RNode = Cello(RNode);
+static long __attribute__((noinline)) cycle_run(int garbage) {
+  struct RNode* a[3];
+  for (int i = 0; i < 3; i++) { a[i] = alloc(RNode); a[i]->v = i + 1; }
+  for (int i = 0; i < 3; i++) { a[i]->next = a[(i + 1) % 3]; a[i]->prev = a[(i + 2) % 3]; }
+  var r1 = alloc(Ref), r2 = alloc(Ref); ref(r1, r2); ref(r2, r1);
+  long sum = 0;
+  for (int i = 0; i < garbage; i++) { var g = new(Int, $I(i)); sum += (long)c_int(g) % 2; }
+  struct RNode* p = a[0];
+  for (int i = 0; i < 6; i++) { sum += (long)p->v * 100; p = (i < 3) ? p->next : p->prev; }
+  if (deref(deref(r1)) != r1) sum = -1;
+  return sum;
+}
+
 static var builtin_type(const char* n) {
   var ts[] = { Int, Float, String, Array, List, Table, Tree, Tuple, Ref, Box, Type, File, Range, Slice, Zip, Map, Filter, Thread, Mutex, Function,
                TypeError, ValueError, KeyError, IOError, Iter, Get };             /* (names in prefix relation: Type / TypeError) */
   for (size_t i = 0; i < sizeof ts / sizeof ts[0]; i++) if (!strcmp(c_str(ts[i]), n)) return ts[i];
   /* user types made at run time, their names nested in each other */
-  static const char* un[] = { "Point", "Point3D", "PointCloud", "Poin", "P" }; static var ut[5];
-  for (int i = 0; i < 5; i++) if (!strcmp(un[i], n)) { if (!ut[i]) ut[i] = new_root(Type, $S((char*)un[i]), $I(8)); return ut[i]; }
+  static const char* un[] = { "Point", "Point3D", "PointCloud", "Poin", "P", "\xc3\x9cnit", "\xc3\xa9t\xc3\xa9", "Unit" }; static var ut[8];     /* (two names start with a byte >= 0x80) */
+  for (int i = 0; i < 8; i++) if (!strcmp(un[i], n)) { if (!ut[i]) ut[i] = new_root(Type, $S((char*)un[i]), $I(8)); return ut[i]; }
   return Int;
 }
 
@@ -133,6 +149,7 @@ int main(int argc, char** argv) {
         vals[t2] = o; }
       continue;
     }
+    if (hc_is(0, "cycle")) { volatile long sm = -2; HC_TRY(sm = cycle_run((int)hc_int(1))); ev_begin("cycle"); ev_int("n", hc_int(1)); ev_int("sum", sm); ev_str("exc", hc_exc); ev_int("line", cur_line); ev_end(); continue; }
     if (hc_is(0, "pool")) {                   /* pool <n> : n pooled objects made and deleted (raw and managed in turn), twice over */
       int n = (int)hc_int(1); if (n > POOLN) n = POOLN;
       cell_released = cell_garbled = 0; long inuse = 0; volatile int made = 0;
